@@ -371,6 +371,20 @@ def check_C01(work):
     for fr in fronts(100000, ("plain", "stack")):
         progs = ([S("k", chunks=2)], [P("k")], [G("k"), G("k")])
         jobs.append(conc_job("C01-%s-3p" % fr[0], "%s:3p" % fr[0], fr, progs, rnd(Q(60, 1500), seed() + 99)))
+    # one failing publish call in a writer (no hard links here, cross-device, I/O error ...) while readers look the key up: whatever
+    # fallback or retry the library takes, a reader never sees an empty, partial or later-modified file
+    nflt = 0
+    for fr in fronts(100000, ("plain", "stack")):
+        for wop, calls in ((P("k"), [("link", "EPERM"), ("link", "EXDEV"), ("link", "EMLINK"), ("link", "EIO")]),
+                           (S("k"), [("rename", "EXDEV"), ("rename", "EIO"), ("rename", "EPERM")])) + \
+                          (((E("k2"), [("link", "EPERM"), ("link", "EIO")]),) if fr[0] == "stack" else ()):
+            for call, er in calls:
+                key = wop["key"]
+                progs = ([dict(wop, chunks=2)], [G(key), G(key)])
+                cj = conc_job("C01-flt-%s-%d" % (fr[0], nflt), "%s:%s(%s:%s)||get+get" % (fr[0], wop["api"], call, er), fr, progs, bursts(Q(40, 200)))
+                cj["stages"][-1]["parts"][0]["fault_all"] = {"call": call, "errno": er, "count": 1}
+                jobs.append(cj)
+                nflt += 1
     mons = ["DirValid", "HandleContentOK", "Immutable"]
     st = trace_check(work, out, jobs, mons, tag="c01", conform=True)
     st = add_pool(work, out, st, ["DirValid", "HandleContentOK", "Immutable"])
@@ -513,6 +527,7 @@ def check_C16(work):
                 jobs.append(seq_job("C16-%s-%s-%d" % (fname, api, i), "%s:%s" % (fname, api), cache, prog, world=world,
                                     mkdirs=("SRC", "TMP", "outer")))
     # a rejected call must not even run maintenance: tiny caches that are over capacity and hold stale temp files, trigger always firing
+    mjobs = []
     bad = [nm for nm in names if nm == "" or nm[0] in "./\\" or "/" in nm]
     rng.shuffle(bad)
     bad = ["", "/abs", "a/b", ".x"] + bad[:Q(8, 60)]
@@ -525,6 +540,17 @@ def check_C16(work):
                 w2.append(op("mkfile", path="@TOP@/%s/f%d" % (d, i), key="f%d" % i, val="old%d" % i, chunks=1, w=0, mode=0o444,
                              mt_ago=900.0 - i, at_ago=1020.0 - i))
             w2.append(op("mkfile", path="@TOP@/%s/.kismet_temp/stale" % d, raw="x", mt_ago=9000.0, at_ago=9000.0))
+            # the application's own dot files (one with a name that is not valid UTF-8), older than every entry
+            w2.append(op("mkfile", path="@TOP@/%s/.appdata" % d, raw="appdata", mt_ago=5000.0, at_ago=5120.0))
+            w2.append(op("mkfile", path="@TOP@/%s/.app-donn" % d, name_hex="e96573", raw="appdata", mt_ago=5000.0, at_ago=4990.0))
+        # (the same worlds, with VALID names: maintenance runs and must leave the dot-prefixed namespace alone)
+        okprog = []
+        for api in ["set", "put", "set", "put"]:
+            o = op(api, "fresh%d" % len(okprog))
+            o["hash"], o["sec"] = "1", "2"
+            okprog.append(o)
+        mjobs.append(seq_job("C16-%s-maint-valid" % fname, "%s:valid-names:maintenance-pending" % fname, cache, okprog, world=w2,
+                             draw=ALWAYS, mkdirs=("SRC", "TMP", "outer")))
         apis = ["set", "put", "get", "touch"] + (["ensure", "set_tf", "put_tf"] if fname == "stack" else [])
         for api in apis:
             prog = []
@@ -548,7 +574,7 @@ def check_C16(work):
         real_roots = [root("outer/data/W2", "sharded" if fname == "sharded" else "plain", "w")] + ([root("outer/R", "plain", "ro")] if fname == "stack" else [])
         jobs.append(seq_job("C16-%s-symlinked-root" % fname, "%s:symlinked-root" % fname, cache, prog, world=w3, draw=ALWAYS,
                             roots=real_roots, mkdirs=("SRC", "TMP", "outer")))
-    mons = ["ConfinedStrict", "RejectedOK", "RejectedNoEffect", "OutsideUntouched", "DirValid"]
+    mons = ["ConfinedStrict", "RejectedOK", "RejectedNoEffect", "OutsideUntouched", "DirValid", "DotFilesUntouched"]
 
     def key_of(job, mon, ev, evs):
         # the witness is the name class: which kind of name broke out
@@ -558,7 +584,10 @@ def check_C16(work):
         cls = "slash" if "/" in nm else "plain"
         return "%s@%s" % (mon, cls)
     st = trace_check(work, out, jobs, mons, tag="c16", key_of=key_of)
-    st = add_pool(work, out, st, ["Confined", "OutsideUntouched"])
+    st2 = trace_check(work, out, mjobs, ["Confined", "DotFilesUntouched", "OutsideUntouched", "DirValid"], tag="c16m")
+    st = merge_stats([st, st2])
+    jobs += mjobs
+    st = add_pool(work, out, st, ["Confined", "OutsideUntouched", "DotFilesUntouched"])
     cov = coverage_mc(st, [], "every name of the generated set (all sequences over {a . / \\ non-ASCII} up to length %d plus fixed boundary names) x "
                       "{set,put,get,touch,ensure} x {plain,sharded,stacked}, cache placed inside a sentinel tree; every mutating call and every "
                       "snapshot judged by ConfinedStrict/Rejected*/OutsideUntouched" % (4 if TIER == "thorough" else 3),
@@ -862,11 +891,11 @@ def check_C02(work):
     return finish("C02", out, t0, "fault_enumeration", cov, BASE_ASSUME + ["process crash (SIGKILL), not power loss"])
 
 
-ERRNOS_Q = {"open": ["EIO", "EMFILE"], "write": ["ENOSPC"], "copy": ["EIO"], "fsync": ["EIO"], "rename": ["EIO", "ESTALE", "ENOENT"], "link": ["EIO", "EACCES"],
+ERRNOS_Q = {"open": ["EIO", "EMFILE"], "write": ["ENOSPC"], "copy": ["EIO"], "fsync": ["EIO"], "rename": ["EIO", "ESTALE", "ENOENT", "EXDEV"], "link": ["EIO", "EACCES", "EPERM", "EMLINK", "EXDEV"],
             "unlink": ["EIO"], "chmod": ["EACCES"], "utimens": ["EIO"], "getdents": ["EIO"], "stat": ["EIO", "ESTALE"], "close": ["EIO"],
             "mkdir": ["EACCES"], "read": ["EIO"], "*": []}
 ERRNOS_T = {"open": ["EIO", "EACCES", "EMFILE", "ENOSPC", "ESTALE"], "write": ["EIO", "ENOSPC"], "copy": ["EIO", "ENOSPC"], "fsync": ["EIO"],
-            "rename": ["EIO", "EACCES", "ESTALE", "ENOENT"], "link": ["EIO", "EACCES", "ESTALE", "EMFILE", "ENOENT"], "unlink": ["EIO", "EACCES", "ESTALE"],
+            "rename": ["EIO", "EACCES", "ESTALE", "ENOENT"], "link": ["EIO", "EACCES", "ESTALE", "EMFILE", "ENOENT", "EPERM", "ENOSYS", "EOPNOTSUPP", "EMLINK", "EXDEV"], "unlink": ["EIO", "EACCES", "ESTALE"],
             "chmod": ["EIO", "EACCES", "ESTALE"], "utimens": ["EIO", "EACCES", "ESTALE"], "getdents": ["EIO", "ESTALE"],
             "stat": ["EIO", "ESTALE", "EACCES"], "close": ["EIO"], "mkdir": ["EIO", "EACCES", "ENOSPC"], "read": ["EIO"], "*": []}
 
@@ -1380,6 +1409,19 @@ def check_C10(work):
                             draw=sc["draw_default"], draws=sc["draws"], cfg_extra={"cap": k if k < (1 << 20) else 1000000})
                 j["snap"] = "ret"
                 jobs.append(j)
+    # a temp directory that cannot be listed (it is a regular file) makes the sweep fail -- AFTER the maintenance of the cache directory,
+    # which therefore still happens once per period (values staged outside the cache, through the stacked front end)
+    for k in (6, 9, 12, 30):
+        P = max(1, k // 3)
+        scripts, n = trigger_scripts(k // 3, rng)
+        for name in ("max", "mult", "mult+1"):
+            sc = scripts[name]
+            prog = [op("set" if i % 2 == 0 else "put", "k%d" % i, "v%d" % i) for i in range(3 * P + 5)]
+            world = [op("mkdir", path="@TOP@/W"), op("mkfile", path="@TOP@/W/.kismet_temp", raw="not a directory")]
+            j = seq_job("C10-%s-%s-badtemp" % (k, name), "cap=%s:%s:unlistable-temp" % (k, name), stack(plain("W", k), [], "none"), prog, world=world,
+                        draw=sc["draw_default"], draws=sc["draws"], cfg_extra={"cap": k, "maywritefail": True})
+            j["snap"] = "ret"
+            jobs.append(j)
     tfiles = run_tracer(work, jobs, tag="c10")
     res2 = validate_traces(work, "TraceTrigger", tfiles, {"monitors": []}, tag="c10")
     writes = maint = 0
@@ -1548,6 +1590,7 @@ def check_C04(work):
     # ensure (stacked cache with a plain writer and no read-only level)
     for i, (a, b) in enumerate([([E(k)], [E(k)]), ([E(k)], [S(k), G(k)]), ([E(k)], [P(k), G(k)]), ([E(k), G(k)], [E(k)]), ([E(k)], [G(k), T(k)])]):
         jobs.append(conc_job("C04-ens-%d" % i, "stack:%s||%s" % (prog_name(a), prog_name(b)), stackf, (a, b), dfs(Q(120, 1200), Q(3, None)), cfg_extra={"key": k}))
+        jobs.append(conc_job("C04-ens-%d-b" % i, "stack:%s||%s" % (prog_name(a), prog_name(b)), stackf, (a, b), bursts(Q(120, 400)), cfg_extra={"key": k}))
     jobs.append(conc_job("C04-ens-3p", "stack:3p:ensure", stackf, ([E(k)], [E(k)], [E(k)]), rnd(Q(100, 1500), seed() + 77), cfg_extra={"key": k}))
     # one failing call inside a writer (its rename / link / re-stamp ...) while readers look the key up: whatever the failed or retried
     # operation does, no lookup ever sees the key absent or an older value than a completed set's
@@ -1836,6 +1879,24 @@ def check_C20(work):
         j = job("C20-fault-%s" % fname, [seq_stage(part(9, plain("SRC/none"), world, NEVER)), v], {"front": fname, "checker": "none"},
                 {"kind": "fault", "part": 1, "runs": 400, "errnos": {"open": ["ESTALE", "ENOENT"], "fsync": ["EIO"], "chmod": ["EIO"], "write": ["ENOSPC"],
                                                                      "link": ["EIO"], "rename": ["EIO"], "*": []}}, fam=fname + ":failing-open")
+        j["snap"] = "none"
+        jobs.append(j)
+    # a long-lived handle: the same measured writes before and after hundreds of writes through the SAME handle (in-memory state such as
+    # saturating load estimates must not make later operations list a directory)
+    for fname, cache in (("sharded", sharded("D", 2, 20000000)), ("plain", plain("D", 10000000)), ("stacksh", stack(sharded("D", 2, 20000000), [], "none"))):
+        hw = dict(hash="1", sec="2")
+        # (a few unmeasured writes first: they create the directories)
+        prog = [op("set", "a0", "v", **hw), op("put", "a1", "v", hash="7", sec="4"), op("set", "a2", "v", hash="7", sec="4")]
+        prog += [dict(op("put", "c0", "v", **hw), grp="warm-put-fresh"), dict(op("set", "c1", "v", **hw), grp="warm-set-fresh"),
+                dict(op("put", "c0", "v", **hw), grp="warm-put-existing"), dict(op("get", "c0", **hw), grp="warm-get")]
+        nwarm = Q(560, 2000)
+        prog += [op("put" if i % 2 else "set", "w%d" % i, "v", hash=str(2 * i + 1), sec=str(2 * i + 2)) for i in range(nwarm)]
+        prog += [dict(op("put", "d0", "v", **hw), grp="warm-put-fresh"), dict(op("set", "d1", "v", **hw), grp="warm-set-fresh"),
+                 dict(op("put", "d0", "v", **hw), grp="warm-put-existing"), dict(op("get", "d0", **hw), grp="warm-get")]
+        for o in prog:
+            if o["api"] in ("set", "put") and fname == "stacksh":
+                o["srcdir"] = "@TOP@/SRC"
+        j = job("C20-warm-%s" % fname, [seq_stage(part(1, cache, with_vals(prog, 1), NEVER))], {"front": fname, "checker": "none"}, None, fam=fname + ":warm-handle")
         j["snap"] = "none"
         jobs.append(j)
     tfiles = run_tracer(work, jobs, tag="c20")
